@@ -15,10 +15,12 @@ TRUSTED_BASE = [
 ASSUMPTIONS = ["exact arithmetic: integer vectors; for inner_dist='euclidean' the generated points differ in one "
                "coordinate only, so that the (irrational in general) vector norm is an integer"]
 RULE = ("random (length x d) series, d in 1..4, x DTW settings x site in {distance, warping_paths (distance+matrix), "
-        "distance_matrix on a list of 2-D arrays / one 3-D array, d=1 vs univariate on the flattened series} x engine")
+        "distance_matrix on a list of 2-D arrays / one 3-D array, d=1 vs univariate on the flattened series, the "
+        "multivariate Euclidean upper bound (ub_euclidean, only_ub in both engines) vs the extracted ed_model, "
+        "use_pruning (distance and serial matrix) vs the unpruned model value} x engine")
 GUARD = "non-degenerate psi; window None or >= 1"
 
-SITES = ["distance", "wps", "matrix", "d1"]
+SITES = ["distance", "wps", "matrix", "d1", "ub", "prune"]
 
 
 def rand_nd(rng, n, nd, single):
@@ -38,12 +40,20 @@ def gen_cases(rng, tier):
     maxlen = 6 if tier == "quick" else 9
     cases = []
     for k in range(n):
-        kind = SITES[k % 4]
+        kind = SITES[k % len(SITES)]
         eng = "py" if rng.random() < 0.5 else "c"
         nd = 1 if kind == "d1" else rng.randint(1, 4)
         r = rng.randint(1, maxlen)
         c = rng.randint(1, maxlen) if rng.random() < 0.7 else r
         st = dtwgen.rand_settings(rng, r, c, allow_mld=False)
+        if kind in ("ub", "prune"):
+            # the multivariate Euclidean upper bound and its use for pruning: only where ED is a valid upper bound
+            st["psi"] = None
+            st["max_step"] = None
+            if r != c:
+                st["penalty"] = None
+            if kind == "ub":
+                st["window"] = None
         single = None
         if st["inner_dist"] == "euclidean" and nd > 1:
             single = ([rng.randint(-2, 2) for _ in range(nd)], rng.randrange(nd))
@@ -74,6 +84,10 @@ def _pairs(case):
 def expected(cases, oracle):
     lines = []
     for c in cases:
+        if c["kind"] == "ub":
+            lines.append("ed %d %s %s" % (dtwgen.inner_code(c["settings"]["inner_dist"]),
+                                          dtwgen.fmt_series(c["s1"], c["ndim"]), dtwgen.fmt_series(c["s2"], c["ndim"])))
+            continue
         for (a, b) in _pairs(c):
             cc = dict(c)
             cc["s1"], cc["s2"] = a, b
@@ -85,6 +99,11 @@ def expected(cases, oracle):
     p = 0
     for c in cases:
         idn = c["settings"]["inner_dist"]
+        if c["kind"] == "ub":
+            a = ans[p]
+            p += 1
+            out.append({"vals": [None if a.startswith("ERR") else dtwgen.result_transform(int(a), idn)]})
+            continue
         if c["kind"] == "wps":
             m, d = ans[p], ans[p + 1]
             p += 2
@@ -123,6 +142,17 @@ def impl_run(case):
         f = dtw_ndim.distance_fast if use_c else dtw_ndim.distance
         g = dtw.distance_fast if use_c else dtw.distance
         return [f(s1, s2, **kw), g(s1[:, 0].copy(), s2[:, 0].copy(), **kw)]
+    if kind == "ub":
+        idn = s["inner_dist"]
+        return {"ub": dtw_ndim.ub_euclidean(s1, s2, inner_dist=idn),
+                "only_ub_py": dtw_ndim.distance(s1, s2, only_ub=True, inner_dist=idn),
+                "only_ub_c": dtw_ndim.distance_fast(s1, s2, only_ub=True, inner_dist=idn)}
+    if kind == "prune":
+        f = dtw_ndim.distance_fast if use_c else dtw_ndim.distance
+        ss = [s1, s2]
+        return [f(s1, s2, use_pruning=True, **kw),
+                list(dtw_ndim.distance_matrix(ss, ndim=nd, compact=True, use_c=use_c, parallel=False,
+                                              use_pruning=True, **kw))[0]]
     if kind == "wps":
         f = dtw_ndim.warping_paths_fast if use_c else dtw_ndim.warping_paths
         d, m = f(s1, s2, psi_neg=False, **kw)
@@ -157,6 +187,17 @@ def judge(case, got, exp):
     vals = exp["vals"]
     if any(v is None for v in vals):
         return {"kind": "oracle-error"}
+    if case["kind"] == "ub":
+        out = []
+        for name in ("ub", "only_ub_py", "only_ub_c"):
+            if float(g[name]) != vals[0]:
+                out.append({"kind": "euclidean-bound-differs-from-model:" + name, "got": g[name], "model": vals[0]})
+        return out or None
+    if case["kind"] == "prune":
+        for name, x in zip(("distance", "matrix"), g):
+            if float(x) != vals[0]:
+                return {"kind": "pruning-changes-result:" + name, "got": x, "expected": vals[0]}
+        return None
     if case["kind"] == "d1":
         if float(g[0]) != float(g[1]):
             return {"kind": "d1-differs-from-univariate", "ndim": g[0], "univariate": g[1]}
